@@ -33,6 +33,7 @@ DECIDED = [
     "C02.11 the postponement of cleanups consults a freshly computed list of unexplored flat nodes (a stale list postpones forever: busy loop)",
     "C02.10 recovery from a hung occupant: the re-entrancy limit strictly grows each time the waiting budget is exhausted",
     "C02.12 definitions of the aggregated views and predicates the loop conditions rest on; fresh per-node bookkeeping",
+    "C02.14 wait budget at an occupied node >= test_timeout x max(max_tries, 1), doubled for object roots (two test runs per creation); poll interval; re-entrancy only beyond the budget",
 ]
 NOT_DECIDED = [
     "termination / absence of livelock between bouncing workers as such",
